@@ -217,7 +217,7 @@ pub fn verif_async_read(
     schedule: &[Option<usize>],
 ) -> (Vec<Option<usize>>, Option<Vec<u8>>) {
     let page_pool = crate::io::PagePool::new();
-    let io_pool = crate::io::start_io_pool(1, page_pool.clone());
+    let mut io_pool = crate::io::start_io_pool(1, page_pool.clone());
     let io_handle = io_pool.make_handle();
     let bump = PageNumber(
         (file.metadata().map(|m| m.len()).unwrap_or(0) / crate::io::PAGE_SIZE as u64) as u32,
@@ -242,6 +242,10 @@ pub fn verif_async_read(
             }
         }
     }
+    // the read requests sent along the handle are answered by the pool's worker; stop it
+    drop(reader);
+    drop(io_handle);
+    io_pool.shutdown();
     (submits, value)
 }
 
